@@ -1127,6 +1127,10 @@ def _arr_method(arr, name):
         raise Unsupported(".T of non-matrix")
     if name == "real":
         return a
+    if name == "imag":
+        if a.dtype != "complex":
+            return A.full(a.shape, 0, "real")
+        return _uf_array("imag", a.shape, "real")
     if name == "astype":
         return lambda dtype, **kw: A.astype(a, _dt(dtype))
     if name == "copy":
@@ -1322,6 +1326,71 @@ REG["typing.NamedTuple"] = TypeTag("NamedTuple", lambda x: False)
 REG["abc.abstractmethod"] = lambda f: f
 REG["abc.ABC"] = TypeTag("ABC", lambda x: False)
 
+
+# scipy.fft: shapes are exact, values are uninterpreted (fresh function per call) ------------------------------
+def _uf_array(prefix, shape, kind="real"):
+    f = z3.Function(V.fresh_name(prefix), *([I] * len(shape)), R)
+    return SArr(tuple(shape), lambda idx: Sym(f(*[V.lift(i) for i in idx])), kind)
+
+
+def _fft_shape(x, s):
+    x = A.from_nested(x)
+    if s is None:
+        return tuple(x.shape)
+    s = tuple(X._unfrac(v) for v in (s.to_list() if isinstance(s, SArr) else s))
+    return tuple(x.shape[:x.ndim - len(s)]) + s
+
+
+def _fftn(x, s=None, axes=None, **kw):
+    return _uf_array("fftn", _fft_shape(x, s), "complex")
+
+
+def _rfftn(x, s=None, axes=None, **kw):
+    shp = _fft_shape(x, s)
+    return _uf_array("rfftn", shp[:-1] + (V.arith("+", V.arith("//", shp[-1], 2), 1),), "complex")
+
+
+def _irfftn(x, s=None, axes=None, **kw):
+    x = A.from_nested(x)
+    if s is None:
+        # scipy/numpy: without `s` the last axis has length 2*(m-1)
+        shp = tuple(x.shape[:-1]) + (V.arith("*", 2, V.arith("-", x.shape[-1], 1)),)
+    else:
+        s = tuple(X._unfrac(v) for v in (s.to_list() if isinstance(s, SArr) else s))
+        shp = tuple(x.shape[:x.ndim - len(s)]) + s
+    return _uf_array("irfftn", shp, "real")
+
+
+for _m in ("scipy.fft", "numpy.fft"):
+    REG[_m + ".fftn"] = _fftn
+    REG[_m + ".ifftn"] = _fftn
+    REG[_m + ".rfftn"] = _rfftn
+    REG[_m + ".irfftn"] = _irfftn
+    REG[_m + ".fftshift"] = REG["numpy.fft.fftshift"]
+    REG[_m + ".ifftshift"] = REG["numpy.fft.ifftshift"]
+    REG[_m + ".fftfreq"] = REG["numpy.fft.fftfreq"]
+REG["acryo._typed_scipy.fftn"] = _fftn
+REG["acryo._typed_scipy.ifftn"] = _fftn
+REG["acryo._typed_scipy.rfftn"] = _rfftn
+REG["acryo._typed_scipy.irfftn"] = _irfftn
+
+
+def _cumsum(a, axis=None, **kw):
+    a = A.from_nested(a)
+    return _uf_array("cumsum", a.shape, a.dtype if a.dtype != "bool" else "int")
+
+
+REG["numpy.cumsum"] = _cumsum
+
+
+def _sum_symbolic(a, axis):
+    """sum over a symbolic extent: an uninterpreted value (no algebraic rules are used for it here)"""
+    if axis is None:
+        return V.fresh("Sum", "real")
+    raise Unsupported("axis-wise sum over a symbolic extent")
+
+
+SUM_HOOK[0] = _sum_symbolic
 
 # scipy.ndimage (numerical kernels are uninterpreted; only shapes / index maps are modelled) ---------------
 def _ndi_map_coordinates(input, coordinates, output=None, order=3, mode="constant", cval=0.0, prefilter=True):
